@@ -7,6 +7,9 @@ SPEC = os.path.join(VERIF, "spec")
 REPO = os.environ.get("VERIF_REPO", "/repo")
 JAR = "/opt/veriftools/tla/tla2tools.jar:/opt/veriftools/tla/CommunityModules-deps.jar"
 NPROC = int(os.environ.get("VERIF_JOBS", str(os.cpu_count() or 8)))
+# evidence and replays normally go to /verif/evidence and /verif/replays; experiments against a modified copy of the sources
+# (VERIF_REPO=<copy>) redirect them with VERIF_OUT so that the files describing the real tree are not overwritten
+OUTDIR = os.environ.get("VERIF_OUT", VERIF)
 
 
 class MachineryError(Exception):
@@ -132,17 +135,17 @@ def known_findings():
 
 
 def write_evidence(pid, tier, seed, level, coverage, wall, violations=0, assumptions=None):
-    os.makedirs(os.path.join(VERIF, "evidence"), exist_ok=True)
+    os.makedirs(os.path.join(OUTDIR, "evidence"), exist_ok=True)
     ev = {"property_id": pid, "tier": tier, "seed": int(seed), "level": level, "coverage": coverage,
           "assumptions": assumptions or [], "wall_s": round(wall, 2), "violations": int(violations)}
-    tmp = os.path.join(VERIF, "evidence", pid + ".json.tmp")
+    tmp = os.path.join(OUTDIR, "evidence", pid + ".json.tmp")
     json.dump(ev, open(tmp, "w"), indent=1)
-    os.replace(tmp, os.path.join(VERIF, "evidence", pid + ".json"))
+    os.replace(tmp, os.path.join(OUTDIR, "evidence", pid + ".json"))
     return ev
 
 
 def save_replay(pid, name, files, meta):
-    d = os.path.join(VERIF, "replays", pid, name)
+    d = os.path.join(OUTDIR, "replays", pid, name)
     os.makedirs(d, exist_ok=True)
     for f in files:
         if f and os.path.exists(f):
